@@ -13,9 +13,13 @@ Independent specification of C20, written from the property text (not from the c
   the first kind, or a plain subclass of one) — "their generic base" — with all of its parameters bound to types; further
   subscripted bases that have nothing to do with GenericMixin (`class Odd(Labelled[str], Box[int])`,
   `class SeqBox(Sequence[int], Box[int])`) may stand anywhere, before or after it, like the plain mixins: the answer is
-  `{Ti: Xi}` of the GenericMixin base.  Not claimed: two subscripted GenericMixin bases, partially bound parameters, a
-  `Generic[…]` re-declared over a GenericMixin base, a binding of a generic class that is NOT a GenericMixin class
-  (`class IntL(Labelled[int], GenericMixin)`), generic classes listed as plain (unsubscripted) mixins, diamonds.
+  `{Ti: Xi}` of the GenericMixin base.  A class that has no subscripted GenericMixin base but lists `GenericMixin` itself among
+  its plain bases and binds all parameters of an ordinary generic class — `class IntL(Labelled[int], GenericMixin)` — is such a
+  subclass too: its generic base is the one subscripted base whose origin is a generic class; further subscripted bases whose
+  origins have no subscripted base anywhere in their ancestry (`Sequence[int]`, `list[int]`) may stand anywhere.
+  Not claimed: two subscripted GenericMixin bases, several subscripted bases with generic-class origins where none is a
+  GenericMixin class, partially bound parameters, a `Generic[…]` re-declared over a GenericMixin base, generic classes listed as
+  plain (unsubscripted) mixins, diamonds.
 * `expectedDecorated`: for every member of the enum, the methods (by defining class and name) that are visible on the
   instance and were decorated through `create_decorator(member)`, with the argument of the outermost such application.
 -/
@@ -112,6 +116,22 @@ def kindOf (t : Table) : Nat → Nat → Kind
             if mixinsOk && ps.all (fun q => usesMixin t d q.1 || foreign t d q.1)
                 && decide (args.length = tvs.length) && args.all TArg.isTy then .bound (pairUp tvs args)
             else .unsupported
+          | _ => .unsupported)
+       | [] =>
+         -- no subscripted base is a GenericMixin class: the class adds `GenericMixin` itself, as a plain base (directly or through a
+         -- plain non-generic class), at any position, and binds all parameters of an ordinary generic class —
+         -- `class IntL(Labelled[int], GenericMixin)`, `class IntL2(GenericMixin, Labelled[int])`.  "Their generic base" is the ONE
+         -- subscripted base whose origin is a generic class (declares `Generic[T1..Tn]`, or is a plain subclass of such a class); the
+         -- other subscripted bases — any number, at any position — have origins in whose ancestry nothing is subscripted at all
+         -- (`Sequence[int]`, `list[int]`).  Several subscripted generic-class bases: nothing is claimed.
+         (match ps.filter (fun q => !nonGeneric t d q.1) with
+          | [(b, args)] =>
+            (match kindOf t d b with
+             | .direct tvs =>
+               if mixinsOk && (bs.filterMap plainOf).any (usesMixin t d) && ps.all (fun q => foreign t d q.1)
+                   && decide (args.length = tvs.length) && args.all TArg.isTy then .bound (pairUp tvs args)
+               else .unsupported
+             | _ => .unsupported)
           | _ => .unsupported)
        | _ => .unsupported)
     | [], [] =>
